@@ -475,6 +475,13 @@ class Interp(Engine):
                 continue
             t = self.truth(c, s)
             if s.spec and not isinstance(t, bool):
+                # decided by the path condition?  then the specification term needs no if-then-else
+                if self.entails(s, t):
+                    yield from self.ev(e.body, s)
+                    continue
+                if self.entails(s, z3.Not(t)):
+                    yield from self.ev(e.orelse, s)
+                    continue
                 (s1, a), = list(self.ev(e.body, s))
                 (s2, b2), = list(self.ev(e.orelse, s))
                 la, lb = self.lift(a, s), self.lift(b2, s)
@@ -518,6 +525,7 @@ class Interp(Engine):
         if isinstance(op, (ast.Lt, ast.LtE, ast.Gt, ast.GtE)):
             if is_concrete(a) and is_concrete(b2):
                 return {ast.Lt: a < b2, ast.LtE: a <= b2, ast.Gt: a > b2, ast.GtE: a >= b2}[type(op)]
+            a, b2 = self.unwrap_known_some(a, st), self.unwrap_known_some(b2, st)
             ta, tb = self.ty_of(self.lift(a, st)), self.ty_of(self.lift(b2, st))
             if ta.kind in ('int', 'bool') and tb.kind in ('int', 'bool'):
                 x, y = self.term(a, INT), self.term(b2, INT)
@@ -529,6 +537,16 @@ class Interp(Engine):
                         ast.Gt: lambda: lt(y, x), ast.GtE: lambda: z3.Not(lt(x, y))}[type(op)]()
             raise Outside("ordering on %r, %r" % (ta, tb))
         raise Outside("comparison %s" % type(op).__name__)
+
+    def unwrap_known_some(self, v, st):
+        """an Optional value used where its content is needed: the content, if it is known not to be None here (always in a
+        specification, where the content of None is unspecified)"""
+        if isinstance(v, V) and v.ty.kind == 'opt':
+            o = opt_sort(to_sort(v.ty.args[0], self.reg))
+            if st.spec or self.entails(st, o.is_some(v.t)):
+                return V(o.val(v.t), v.ty.args[0])
+            raise Outside("possibly-None value used as %r" % (v.ty.args[0],))
+        return v
 
     def identity(self, a, b2, st):
         # `is` between immutable values: only used with sentinel strings / None in this code base
@@ -621,6 +639,10 @@ class Interp(Engine):
             a = self.lift(a, st)
         if isinstance(b2, Ref):
             b2 = self.lift(b2, st)
+        if isinstance(a, V) and a.ty.kind == 'opt' and a.ty.args[0].kind in ('int', 'bytes'):
+            a = self.unwrap_known_some(a, st)
+        if isinstance(b2, V) and b2.ty.kind == 'opt' and b2.ty.args[0].kind in ('int', 'bytes'):
+            b2 = self.unwrap_known_some(b2, st)
         if (isinstance(a, tuple) and a and a[0] == 'opaque') or (isinstance(b2, tuple) and b2 and b2[0] == 'opaque'):
             yield st, ('opaque',)       # arithmetic on values the verification does not look at (Decimal balances)
             return
@@ -671,7 +693,7 @@ class Interp(Engine):
                 raise Outside("int operator %s" % type(op).__name__)
             return
         if ta.kind == 'bytes' and tb.kind == 'bytes' and isinstance(op, ast.Add):
-            yield st, V(z3.Concat(self.term(a), self.term(b2)), BYTES)
+            yield st, V(self.mk_concat(self.term(a), self.term(b2)), BYTES)
             return
         if ta.kind == 'str' and tb.kind == 'str' and isinstance(op, ast.Add):
             yield st, V(z3.Concat(self.term(a), self.term(b2)), STR)
@@ -956,6 +978,7 @@ class Interp(Engine):
     def slice_(self, v, lo, hi, step, st):
         if step is not None:
             raise Outside("slice step")
+        lo, hi = self.unwrap_known_some(lo, st), self.unwrap_known_some(hi, st)
         if isinstance(v, Ref):
             v = self.lift(v, st)
         if is_concrete(v) and (lo is None or is_concrete(lo)) and (hi is None or is_concrete(hi)):
@@ -965,7 +988,7 @@ class Interp(Engine):
         v = self.lift(v, st)
         if v.ty.kind not in ('bytes', 'list', 'str'):
             raise Outside("slice of %r" % (v.ty,))
-        n = z3.Length(v.t)
+        n = self.norm_len(v.t, st) if v.ty.kind == 'bytes' else z3.Length(v.t)
 
         def norm(x, default):
             if x is None:
@@ -996,6 +1019,8 @@ class Interp(Engine):
         else:
             ln = z3.If(b2 > a, b2 - a, 0)
         ln = z3.simplify(ln)
+        if v.ty.kind == 'bytes':
+            return V(self.mk_extract(v.t, a, ln, st), v.ty)
         return V(z3.SubSeq(v.t, a, ln), v.ty)
 
     def index(self, v, k, st, e=None):
